@@ -256,6 +256,12 @@ def variants(prop, tier, cases):
         for c in timed[::step]:
             for mode in ("yes", "over"):
                 out.append(dict(c, id=c["id"] + "-" + mode, sleep=mode))
+        # one time-out served several intervals late, the others on time or at once: the schedule must not shift ("without drift")
+        multi = [c for c in cases if sum(1 for l in c["sched"] if l["a"] == "poll" and l["t"] == "timeout" and l["x"] == "timed") >= 2]
+        step = max(1, len(multi) // (120 if tier == "quick" else 1200))
+        for c in multi[::step]:
+            for nm, modes in (("late1", ["late", "no"]), ("late2", ["no", "late", "no"]), ("late1y", ["late", "yes"])):
+                out.append(dict(c, id=c["id"] + "-" + nm, sleep=modes))
     if prop == "C20":
         step = max(1, len(cases) // (400 if tier == "quick" else 6000))
         out = [dict(c, faults="all") for c in cases[::step]]
